@@ -26,6 +26,31 @@ pub static LIVE_BYTES: AtomicI64 = AtomicI64::new(0);
 pub static MISMATCHES: AtomicU64 = AtomicU64::new(0);
 pub static FIRST_MISMATCH: [AtomicUsize; 4] = [AtomicUsize::new(0), AtomicUsize::new(0), AtomicUsize::new(0), AtomicUsize::new(0)];
 pub static TABLE_FULL: AtomicBool = AtomicBool::new(false);
+pub static DOUBLE_FREES: AtomicU64 = AtomicU64::new(0);
+
+/// Direct-mapped memory of blocks that were released while tracked and have not been handed out again since.
+/// A release of such a block is a double free. Collisions only evict older entries (a missed detection, never a false one).
+const FREED_SLOTS: usize = 1 << 16;
+static FREED: [AtomicUsize; FREED_SLOTS] = {
+    #[allow(clippy::declare_interior_mutable_const)]
+    const Z: AtomicUsize = AtomicUsize::new(0);
+    [Z; FREED_SLOTS]
+};
+fn fslot(p: usize) -> usize {
+    (p >> 4).wrapping_mul(0x9E3779B97F4A7C15) >> (64 - 16)
+}
+fn freed_mark(p: usize) {
+    FREED[fslot(p)].store(p, Ordering::Relaxed);
+}
+fn freed_clear(p: usize) {
+    let s = &FREED[fslot(p)];
+    if s.load(Ordering::Relaxed) == p {
+        s.store(0, Ordering::Relaxed);
+    }
+}
+fn freed_has(p: usize) -> bool {
+    FREED[fslot(p)].load(Ordering::Relaxed) == p
+}
 
 fn lock() {
     while LOCK.compare_exchange_weak(false, true, Ordering::Acquire, Ordering::Relaxed).is_err() {
@@ -88,6 +113,7 @@ unsafe impl GlobalAlloc for Audit {
         if !p.is_null() && ENABLED.load(Ordering::Relaxed) {
             lock();
             insert(p as usize, layout.size(), layout.align());
+            freed_clear(p as usize);
             unlock();
             LIVE.fetch_add(1, Ordering::Relaxed);
             LIVE_BYTES.fetch_add(layout.size() as i64, Ordering::Relaxed);
@@ -99,7 +125,16 @@ unsafe impl GlobalAlloc for Audit {
         if ENABLED.load(Ordering::Relaxed) {
             lock();
             let had = remove(ptr as usize);
+            let again = had.is_none() && freed_has(ptr as usize);
+            if had.is_some() {
+                freed_mark(ptr as usize);
+            }
             unlock();
+            if again {
+                // released before and not handed out since: a double free; do not pass it on so that the process stays healthy
+                DOUBLE_FREES.fetch_add(1, Ordering::Relaxed);
+                return;
+            }
             if let Some(had) = had {
                 LIVE.fetch_sub(1, Ordering::Relaxed);
                 LIVE_BYTES.fetch_sub(had.0 as i64, Ordering::Relaxed);
@@ -119,6 +154,7 @@ unsafe impl GlobalAlloc for Audit {
         if !p.is_null() && ENABLED.load(Ordering::Relaxed) {
             lock();
             insert(p as usize, layout.size(), layout.align());
+            freed_clear(p as usize);
             unlock();
             LIVE.fetch_add(1, Ordering::Relaxed);
             LIVE_BYTES.fetch_add(layout.size() as i64, Ordering::Relaxed);
@@ -147,7 +183,11 @@ unsafe impl GlobalAlloc for Audit {
         if ENABLED.load(Ordering::Relaxed) {
             if !p.is_null() {
                 lock();
+                if tracked && p != ptr {
+                    freed_mark(ptr as usize);
+                }
                 insert(p as usize, new_size, layout.align());
+                freed_clear(p as usize);
                 unlock();
                 LIVE.fetch_add(1, Ordering::Relaxed);
                 LIVE_BYTES.fetch_add(new_size as i64, Ordering::Relaxed);
@@ -169,10 +209,11 @@ pub struct Snapshot {
     pub live: i64,
     pub live_bytes: i64,
     pub mismatches: u64,
+    pub double_frees: u64,
 }
 
 pub fn snapshot() -> Snapshot {
-    Snapshot { live: LIVE.load(Ordering::Relaxed), live_bytes: LIVE_BYTES.load(Ordering::Relaxed), mismatches: MISMATCHES.load(Ordering::Relaxed) }
+    Snapshot { live: LIVE.load(Ordering::Relaxed), live_bytes: LIVE_BYTES.load(Ordering::Relaxed), mismatches: MISMATCHES.load(Ordering::Relaxed), double_frees: DOUBLE_FREES.load(Ordering::Relaxed) }
 }
 
 pub fn enable(on: bool) {
@@ -192,4 +233,5 @@ pub fn first_mismatch() -> String {
 
 pub fn reset_mismatches() {
     MISMATCHES.store(0, Ordering::Relaxed);
+    DOUBLE_FREES.store(0, Ordering::Relaxed);
 }
